@@ -2,11 +2,19 @@
 
 Proof: lean/IstioModel/C05/Theorems.lean (every re-sent subscription answered, SotW and delta, any retained
 nonce; EDS-after-CDS warming answer; delta wildcard resync from any retained state incl. explicit removal of
-what was deleted while away; WDS version-skip soundness; registration-vs-publication: witness of the missed
-snapshot window and registration_no_miss for the repaired order) + the C03/C04 theorems it builds on.
-Tie: T-diff stream `reconn` - histories with stream cuts and reconnects through the real processDeltaRequest /
-pushConnectionDelta / processRequest / pushConnection (harness/c03, model lean/IstioModel/C03/Clients.lean);
-end-to-end streams with the real generators (harness/e2e: c05, initrace) are exploration of the real server.
+what was deleted while away; WDS version-skip soundness), ReconnectTheorems.lean (the whole request handler on a
+fresh stream: CDS with the forced EDS push, delta named types, on-demand WDS with retained versions),
+RegTheorems.lean (registration vs. the two halves of Push: witnesses of the missed-snapshot window for the
+unrepaired initConnection and for the reverse order inside Push, registration_no_miss for every interleaving
+of the code as it is; start-up: never_served_cold with witnesses for a missing readiness gate / InitContext)
++ the C03/C04 theorems it builds on.
+Tie: T-diff streams `reconn` (histories with stream cuts and reconnects through the real processDeltaRequest /
+pushConnectionDelta / processRequest / pushConnection; the first delta request of a stream presents the
+retained nonce / uses the legacy empty wildcard in a part of the cases), `wds` (real WorkloadGenerator; first
+requests with "*" or the legacy empty subscription, retained or wrong versions, retained nonce), `warm`
+(harness/c04). The Reg / Boot models are tied by observation only: e2e stream `initrace` parks initConnection
+or Push at verif gate points of the real server and puts a fake server back into the start-up state; e2e
+stream `c05` is the statement itself on the real generators (incl. reconnects that overlap the old stream).
 """
 import json
 import os
@@ -55,9 +63,15 @@ def run(ctx):
         "generators are abstract in the theorems (full-set / always-answer classes); the real ones are observed by the e2e streams",
         "a conformant client reports everything it retained in initial_resource_versions and re-sends its subscriptions",
         "WDS versions are content hashes (equal version = equal content)",
-        "Reg model of initConnection vs Push: atomic steps read-snapshot / addCon / initialize / publish+enqueue",
+        "Reg model of initConnection vs Push: atomic steps read-snapshot / addCon+re-read / initialize / handle-push on the connection side, "
+        "SetPushContext / StartPush(AllClients) as two steps on the Push side, one Push at a time (debouncer); the push queue is one parked slot "
+        "per connection (newest request wins); tied by the initrace gates only (observation, not differential)",
+        "Boot model (start-up): static cluster state, readiness is marked only when caches are complete and every update received so far is "
+        "committed (bootstrap waitForCacheSync, read not executed); e2e emulates a starting instance by clearing the readiness flag and "
+        "swapping in a never-initialised push context on a fake server whose registries are synced",
     ]
-    ctx.trusted.append("pilot/pkg/xds/zz_verif_c03.go, zz_verif_c04.go (verif-tagged accessors)")
+    ctx.trusted.append("pilot/pkg/xds/zz_verif_c03.go, zz_verif_c04.go, zz_verif_c05.go, zz_verif_e2e.go (verif-tagged accessors and gate points "
+                       "init:after-lastpushcontext, init:after-addcon, push:after-publish, push:after-enqueue; empty functions without the tag)")
     ctx.lean_prove(THEOREMS)
     if not ctx.build_drv():
         return
@@ -84,8 +98,11 @@ def run(ctx):
     warm(ctx)
     # the statement itself on the REAL generators (harness/e2e): cuts at every kind of point, changes while away,
     # reconnect to the same or a second server with the retained state; and the registration window of initConnection
+    # (+ reconnects that overlap the not yet terminated old stream, changes after the reconnect)
     e2e_common.run(ctx, "c05", ctx.n(20, 400))
-    e2e_common.run(ctx, "initrace", ctx.n(12, 100))
+    # initConnection parked inside the registration window, Push parked between / after its two halves while a whole
+    # connection initialises, and a proxy meeting an instance that is still starting (not ready / context never initialised)
+    e2e_common.run(ctx, "initrace", ctx.n(14, 120))
 
 
 def replay(ctx, path):
@@ -105,13 +122,20 @@ def replay(ctx, path):
 
 MANIFEST = {
     "level_text": ("Lean 4 proof: a reconnect is a fresh watch table facing arbitrary retained client state; theorems: every re-sent subscription is answered "
-                   "(SotW and delta, any nonce), the ACK-shaped EDS request after CDS is answered (warming), the first delta answer brings a wildcard-type client "
-                   "exactly to the current set from ANY retained state with explicit removal of what was deleted while away, WDS version-skip soundness, and the "
-                   "registration-vs-publication model (witness of the missed-snapshot window; no-miss for every interleaving with the re-read). Tied to /repo by the "
-                   "`reconn` differential stream through the real request/push handlers; real generators explored end-to-end."),
-    "level_note": ("Trusted: Lean kernel + {propext, Classical.choice, Quot.sound}; hand-written models tied by differential testing (reconn stream on the real handlers, "
-                   "shared with C03); generators abstract; WDS generator and initConnection ordering are modelled from reading and exercised only by the e2e exploration "
-                   "streams (harness/e2e) - partial for those parts; hooks pilot/pkg/xds/zz_verif_c03.go, zz_verif_c04.go."),
-    "technique": "Lean 4 theorems over the shared C03/C04 models of delta/SotW bookkeeping with a reconnect operation + differential correspondence with the real Go handlers",
+                   "(SotW and delta, any retained nonce), the ACK-shaped EDS request after CDS is answered (warming), the first delta answer brings a wildcard-type "
+                   "client exactly to the current set from ANY retained state with explicit removal of what was deleted while away - at the level of the whole "
+                   "request handler for LDS/NDS and for CDS with its forced EDS push -, delta named types (EDS/RDS/SDS) and on-demand WDS with retained versions, "
+                   "WDS version-skip soundness on the exact generator model; registration vs. publication with Push split into publish and enqueue (no-miss for "
+                   "every interleaving, witnesses for the unrepaired registration and for the reverse order inside Push); start-up model (never served before "
+                   "ready / from a never-initialised context, with witnesses). Tied to /repo by differential streams through the real request/push handlers "
+                   "and the real workload generator; the registration and start-up models and the real xDS generators are observed end-to-end on a real "
+                   "DiscoveryServer (gate points, cold-start emulation, reconnects overlapping the old stream)."),
+    "level_note": ("Trusted: Lean kernel + {propext, Classical.choice, Quot.sound}; hand-written models tied by differential testing (reconn, wds, warm streams on the real "
+                   "handlers / workload generator); CDS/EDS/LDS/RDS generators are abstract in the theorems (full-set / always-answer classes) and only observed by the "
+                   "e2e stream; the Reg (initConnection vs Push) and Boot (start-up) models are modelled from reading and tied only by scripted observations on a fake "
+                   "server (verif gate points; start-up is emulated on a synced server, bootstrap's waitForCacheSync is read, not executed) - partial for those parts; "
+                   "WorkloadRBACGenerator / Workload type reconnects are not covered here (C03); hooks pilot/pkg/xds/zz_verif_c03.go, zz_verif_c04.go, zz_verif_c05.go, "
+                   "zz_verif_e2e.go and four verifGate lines in ads.go / discovery.go."),
+    "technique": "Lean 4 theorems over the shared C03/C04 models of delta/SotW bookkeeping with a reconnect operation + differential correspondence with the real Go handlers + scripted end-to-end observation",
     "design_ref": "DESIGN.md section 5 C05",
 }
